@@ -118,6 +118,20 @@ func runC12(c *core.Ctx) {
 			kind = "layout"
 			payload, _ = gen.GenLayout(r, i%3 != 0, keys, cas)
 		}
+		if i%5 == 3 {
+			// what a program that builds metadata in Go leaves unset: absent (nil) collections, written as null
+			switch p := payload.(type) {
+			case intoto.Link:
+				p.Command, p.Materials, p.ByProducts = nil, nil, nil
+				payload = p
+			case intoto.Layout:
+				p.Inspect = nil
+				for j := range p.Steps {
+					p.Steps[j].ExpectedCommand, p.Steps[j].ExpectedMaterials = nil, nil
+				}
+				payload = p
+			}
+		}
 		dsse := (i/2)%2 == 1
 		nsig := (i / 4) % 3
 		md, err := gen.NewMeta(payload, dsse)
@@ -372,6 +386,11 @@ func runC12(c *core.Ctx) {
 }
 
 var expiryRe = regexp.MustCompile(`^\d{4}-\d{2}-\d{2}T\d{2}:\d{2}:\d{2}Z$`)
+
+// c12NearHex: strings a lenient number parser or a trimmed comparison would take for hexadecimal
+// (two of them are valid)
+var c12NearHex = []string{"+c26b46", "-c26b46", "0xc26b46", "0Xc26b46", "c26b46 ", " c26b46", "c2_6b46", "c26b46\n", "\tc26b46", "c26b4g", "c2.6b46", "c26b46h", "#c26b46", "\uff11\uff12", "c2 6b", "C26B46", "0"}
+
 var hexRe = regexp.MustCompile(`^[0-9a-fA-F]+$`)
 
 func refValidKey(id string, k intoto.Key) error {
@@ -678,6 +697,23 @@ func c12Validator(c *core.Ctx, keys []gen.KeyPair, cas []*gen.CA, certFn gen.Fun
 				}},
 			)
 		}
+		if i < 4 {
+			// strings next to the hexadecimal alphabet, at every place where one is demanded
+			for _, h := range c12NearHex {
+				h := h
+				variants = append(variants,
+					lv{fmt.Sprintf("pubkey id %q", h), func(l *intoto.Layout, s *[]intoto.Signature) { l.Steps[0].PubKeys = []string{h} }},
+					lv{fmt.Sprintf("signature key id %q", h), func(l *intoto.Layout, s *[]intoto.Signature) { (*s)[0].KeyID = h }},
+					lv{fmt.Sprintf("signature value %q", h), func(l *intoto.Layout, s *[]intoto.Signature) { (*s)[0].Sig = h }},
+					lv{fmt.Sprintf("keys: key id %q", h), func(l *intoto.Layout, s *[]intoto.Signature) {
+						k := l.Keys[kid]
+						delete(l.Keys, kid)
+						k.KeyID = h
+						l.Keys[h] = k
+					}},
+				)
+			}
+		}
 		for vi, v := range variants {
 			l := cloneLayout(base)
 			s := append([]intoto.Signature{}, sigs...)
@@ -703,6 +739,17 @@ func c12Validator(c *core.Ctx, keys []gen.KeyPair, cas []*gen.CA, certFn gen.Fun
 			{"signature key id not hex", func(l *intoto.Link, s *[]intoto.Signature) { (*s)[0].KeyID = "k" }},
 			{"signature value not hex", func(l *intoto.Link, s *[]intoto.Signature) { (*s)[0].Sig = "==" }},
 		}
+		if i < 4 {
+			for _, h := range c12NearHex {
+				h := h
+				lvs = append(lvs,
+					kv{fmt.Sprintf("material digest %q", h), func(l *intoto.Link, s *[]intoto.Signature) { l.Materials["m"]["sha256"] = h }},
+					kv{fmt.Sprintf("product digest %q", h), func(l *intoto.Link, s *[]intoto.Signature) { l.Products["p"]["sha512"] = h }},
+					kv{fmt.Sprintf("signature key id %q", h), func(l *intoto.Link, s *[]intoto.Signature) { (*s)[0].KeyID = h }},
+					kv{fmt.Sprintf("signature value %q", h), func(l *intoto.Link, s *[]intoto.Signature) { (*s)[0].Sig = h }},
+				)
+			}
+		}
 		for vi, v := range lvs {
 			l := cloneLink(lbase)
 			s := append([]intoto.Signature{}, sigs...)
@@ -719,7 +766,7 @@ func init() {
 	core.Register(&core.Property{
 		ID:    "C12",
 		Level: "exploration",
-		Rule: "(A) round trip: seeded links/layouts (hostile strings, nested values, constraints, CA maps) x wrapper x 0-2 signatures (legacy: one with certificate), Dump -> LoadMetadata / Metablock.Load: wrapper recognised, payload, signatures and signature validity preserved; (B) labelled single-point corruptions of the dumped JSON: drop/null/retype of the wrapper parts, wrong payload types, undecodable payload, truncations, unknown/odd type markers, drop/rename of every required top-level member, an unknown member at every fixed-schema level, a renamed member at every nested fixed-schema level, a value of another JSON type at every schema-typed node - all must be refused by both loaders; (C) ValidateMetablock against a reference validator (one predicate per format rule) on conforming bases and ~60 single-rule variants each for layouts (all three key maps) and links. " +
+		Rule: "(A) round trip: seeded links/layouts (hostile strings, nested values, constraints, CA maps; a fifth with absent collections, which the library writes as null) x wrapper x 0-2 signatures (legacy: one with certificate), Dump -> LoadMetadata / Metablock.Load: wrapper recognised, payload, signatures and signature validity preserved; (B) labelled single-point corruptions of the dumped JSON: drop/null/retype of the wrapper parts, wrong payload types, undecodable payload, truncations, unknown/odd type markers, drop/rename of every required top-level member, an unknown member at every fixed-schema level, a renamed member at every nested fixed-schema level, a value of another JSON type at every schema-typed node - all must be refused by both loaders; (C) ValidateMetablock against a reference validator (one predicate per format rule) on conforming bases and ~60 single-rule variants (plus 17 near-hexadecimal strings - sign, 0x, blanks, underscore, full-width digits - at every place where a hexadecimal string is demanded) each for layouts (all three key maps) and links. " +
 			"non-trivial = the corruption changed the parsed JSON / the variant differs from the base; distinct = (kind, wrapper, loader, corruption label) resp. hash of the value",
 		Assumptions: []string{
 			"an expiry with fractional seconds (2030-01-01T00:00:00.5Z) is not judged: it is a parseable UTC timestamp, although not of the YYYY-MM-DDThh:mm:ssZ shape",
